@@ -259,7 +259,8 @@ def check(ctx):
         r4.check(bool(ok), 'parameter/@%s = index of %s in the same callable' % (k, attr), wrel, WP.func.lineno, '%s rows: %s' % (k, [(t, gsa.show(c)) for c, t, n in x]),
                  detail=[(t, gsa.show(c)) for c, t, n in x])
     gpi = py.func('ast', 'Callable.get_parameter_index')
-    r4.check(any(isinstance(n, ast.Raise) for n in ast.walk(gpi)), 'get_parameter_index raises on unknown names', 'giscanner/ast.py', gpi.lineno, 'get_parameter_index no longer raises for a dangling name')
+    from . import c05
+    r4.check(c05.raises_on_dangling(ctx, 'Callable.get_parameter_index'), 'get_parameter_index raises on unknown names', 'giscanner/ast.py', gpi.lineno, 'get_parameter_index no longer raises for a dangling name')
     # arrays
     WT = gsa.summarise(ctx, 'girwriter', 'GIRWriter._write_type', opaque=WOPQ + ('_type_to_name',))
     tp = WT.P(1)
